@@ -61,6 +61,8 @@ Definition bind_name (o : op) : option name :=
   | Del _ | Elaborate => None
   end.
 
+Definition is_some {A} (o : option A) : bool := match o with Some _ => true | None => false end.
+
 Record world (S : Type) := W { w_st : cid -> S; w_heap : heap }.
 Arguments W {S} _ _.
 Arguments w_st {S} _ _.
